@@ -20,7 +20,9 @@ import (
 	dbm "github.com/cometbft/cometbft-db"
 	abci "github.com/cometbft/cometbft/abci/types"
 	sdk "github.com/cosmos/cosmos-sdk/types"
+	"github.com/cosmos/cosmos-sdk/types/module"
 
+	undapp "github.com/unification-com/mainchain/app"
 	beacontypes "github.com/unification-com/mainchain/x/beacon/types"
 	enttypes "github.com/unification-com/mainchain/x/enterprise/types"
 	streamtypes "github.com/unification-com/mainchain/x/stream/types"
@@ -264,6 +266,23 @@ func (w *World) takeFork() {
 	if err := json.Unmarshal(raw, &expA.state); err != nil {
 		w.Violate("C15", "C15/export-fails", "export is not JSON: %v", err)
 		return
+	}
+	// (0) the document passes the four modules' own validation (`und validate-genesis`), which an
+	// operator runs before starting a chain from it
+	for _, mod := range customModules {
+		var verr error
+		if p, _ := safely(func() {
+			hg, ok := undapp.ModuleBasics[mod].(module.HasGenesisBasics)
+			if !ok {
+				panic("module without genesis basics")
+			}
+			verr = hg.ValidateGenesis(a.App.AppCodec(), a.App.TxConfig(), expA.state[mod])
+		}); p != "" {
+			verr = fmt.Errorf("panic: %s", p)
+		}
+		if verr != nil {
+			w.Violate("C15", "C15/exported-document-fails-validation/"+mod, "the %s section of the export at height %d fails the module's genesis validation: %v", mod, a.Height, verr)
+		}
 	}
 	// B: follows the chain
 	b, p := w.initFrom(raw, expA.height)
